@@ -123,7 +123,20 @@ def check(ctx: Ctx) -> str:
     desc = [a for a in ast.walk(jn.nnode) if isinstance(a, ast.Assign) and ast.unparse(a) == "d = escape(d)"]
     ctx.check(len(desc) == 1 and ("do_escape", True) in astq.guard_atoms(jn.nnode, desc[0]) and "soft_str(d).join(map(soft_str, value))" in s, "join", "filters:sync_do_join", "join escapes the delimiter", "join must escape a plain delimiter when any item is markup and rely on Markup.join otherwise", jn.loc())
     fe = repo.func("filters:do_forceescape")
-    ctx.check(ast.unparse(astq.returns(fe.node)[-1].value) == "escape(str(value))", "forceescape", "filters:do_forceescape", "forceescape", "forceescape must escape the plain string form of its input", fe.loc())
+    rv_ = astq.returns(fe.node)[-1].value
+    ok_fe = isinstance(rv_, ast.Call) and astq.callee(rv_) == "escape" and len(rv_.args) == 1 and isinstance(rv_.args[0], ast.Call) and astq.callee(rv_.args[0]) == "str" and len(rv_.args[0].args) == 1 and isinstance(rv_.args[0].args[0], ast.Name)
+    if ok_fe:
+        # what is converted is the input itself or its __html__() form: every assignment to that
+        # name reads only the parameter and calls only hasattr / t.cast / __html__
+        vn_ = rv_.args[0].args[0].id  # type: ignore[attr-defined]
+        par_ = fe.node.args.args[0].arg
+        for a_ in ast.walk(fe.node):
+            if isinstance(a_, ast.Assign) and any(isinstance(t_, ast.Name) and t_.id == vn_ for t_ in a_.targets):
+                names_ = {x.id for x in ast.walk(a_.value) if isinstance(x, ast.Name)}
+                calls_ = {astq.callee(c).split(".")[-1] for c in astq.calls(a_.value)}
+                ok_fe = ok_fe and names_ <= {par_, "t", "hasattr"} and calls_ <= {"hasattr", "cast", "__html__"}
+        ok_fe = ok_fe and (vn_ == par_ or any(isinstance(a_, ast.Assign) and any(isinstance(t_, ast.Name) and t_.id == vn_ for t_ in a_.targets) for a_ in ast.walk(fe.node)))
+    ctx.check(ok_fe, "forceescape", "filters:do_forceescape", "forceescape", "forceescape must escape the plain string form of its input", fe.loc())
     ft = repo.const_map("filters:FILTERS")
     ctx.check(ft.get("e") == "escape" and ft.get("escape") == "escape" and ft.get("safe") == "do_mark_safe" and ft.get("tojson") == "do_tojson" and ft.get("xmlattr") == "do_xmlattr" and ft.get("urlize") == "do_urlize", "FILTERS", "filters:FILTERS", "registrations", "escape / safe / tojson / xmlattr / urlize registrations changed", "src/jinja2/filters.py")
     return __doc__ or ""
